@@ -186,11 +186,12 @@ func (p *partition) IsExpire() bool {
 	p.log.Queue().GC() // try gc old data in queue
 
 	opt := p.shard.Database().GetOption()
-	ahead, _ := opt.GetAcceptWritableRange()
+	// rows of the family are accepted until they are older than the behind of the writable range
+	_, behind := opt.GetAcceptWritableRange()
 	timeRange := p.family.TimeRange()
 	now := timeutil.Now()
 	// add 15 minute buffer
-	if timeRange.End+ahead+15*timeutil.OneMinute > now {
+	if timeRange.End+behind+15*timeutil.OneMinute > now {
 		return false
 	}
 	// partition is expired, check if all write ahead logs have been replicated
